@@ -6,3 +6,5 @@ import Beeb.Props.C01
 #print axioms Beeb.Props.C01.C01_fields
 #print axioms Beeb.Props.C01.C01_list
 #print axioms Beeb.Props.C01.C01_dump
+#print axioms Beeb.Props.C01.C01_opus_default_volume
+#print axioms Beeb.Props.C01.C01_other_formats_no_default
